@@ -126,14 +126,33 @@ theorem specFrom_done (a : Args) (hi : Int) (c : Cut) (h : c.done = true) : ∀ 
     rw [List.range'_succ, List.foldl_cons, push_done a 0 hi c h]
     exact ih (k + 1)
 
+/-- instants before the start that are not after UNTIL do not move the specification's cut -/
+theorem push_pre (a : Args) (lo hi : Int) (c : Cut) (pre : List Inst)
+    (h : ∀ x ∈ pre, x.micros < Spec.RRule.startMicros a ∧ Spec.RRule.afterUntil a x = false) :
+    pre.foldl (push a lo hi) c = c := by
+  induction pre with
+  | nil => rfl
+  | cons x xs ih =>
+    simp only [List.foldl_cons]
+    have hx := h x (List.mem_cons_self ..)
+    have : push a lo hi c x = c := by
+      unfold push
+      by_cases hd : c.done = true
+      · rw [if_pos hd]
+      · rw [if_neg hd, hx.2, if_neg (by simp), if_pos hx.1]
+    rw [this]
+    exact ih (fun y hy => h y (List.mem_cons_of_mem _ hy))
+
 /-- period-by-period agreement of model and specification for the first `N` periods:
     `Good k st` = "`st` is the model state at the start of period `k`" (count excluded) -/
 structure Simulation (a : Args) (r : Rule) (N : Nat) (Good : Nat → State → Prop) : Prop where
   agree : CutsAgree a r
-  results : ∀ k st, k < N → Good k st → ∃ fl, periodResults r st = .ok (Spec.RRule.sel a (k : Int), none, fl)
+  results : ∀ k st, k < N → Good k st → ∃ fl pre cands,
+    periodResults r st = .ok (cands, none, fl) ∧ Spec.RRule.sel a (k : Int) = pre ++ cands ∧
+    (∀ x ∈ pre, x.micros < Spec.RRule.startMicros a ∧ Spec.RRule.afterUntil a x = false) ∧
+    (∀ x ∈ cands, 0 ≤ x.ord ∧ x.ord ≤ Cal.maxOrdinal)
   next : ∀ k st fl c, k + 1 < N → Good k st →
     ∃ st', advance r { st with count := c } fl = .ok st' ∧ Good (k + 1) st'
-  bounded : ∀ k st, k < N → Good k st → ∀ x ∈ Spec.RRule.sel a (k : Int), 0 ≤ x.ord ∧ x.ord ≤ Cal.maxOrdinal
 
 theorem run_refines {a : Args} {r : Rule} {N : Nat} {Good : Nat → State → Prop}
     (sim : Simulation a r N Good) : ∀ (n k : Nat) (st : State) (c : Cut),
@@ -144,12 +163,12 @@ theorem run_refines {a : Args} {r : Rule} {N : Nat} {Good : Nat → State → Pr
   | zero => intro k st c _ _ _ _; simp [specFrom, run]
   | succ n ih =>
     intro k st c hg hk hc hcnt
-    obtain ⟨fl, hres⟩ := sim.results k st (by omega) hg
-    have pa := emit_push a r sim.agree Cal.maxOrdinal (Spec.RRule.sel a (k : Int)) c hc (sim.bounded k st (by omega) hg)
+    obtain ⟨fl, pre, cands, hres, hsel, hpre, hbnd⟩ := sim.results k st (by omega) hg
+    have pa := emit_push a r sim.agree Cal.maxOrdinal cands c hc hbnd
     rw [← hcnt] at pa
     unfold specFrom
-    rw [List.range'_succ, List.foldl_cons]
-    generalize hc' : (Spec.RRule.sel a (k : Int)).foldl (push a 0 Cal.maxOrdinal) c = c' at pa
+    rw [List.range'_succ, List.foldl_cons, hsel, List.foldl_append, push_pre a 0 Cal.maxOrdinal c pre hpre]
+    generalize hc' : cands.foldl (push a 0 Cal.maxOrdinal) c = c' at pa
     have hfold : (List.range' (k + 1) n).foldl
         (fun c (j : Nat) => (Spec.RRule.sel a (j : Int)).foldl (push a 0 Cal.maxOrdinal) c) c' =
         specFrom a Cal.maxOrdinal c' (k + 1) n := rfl
@@ -157,7 +176,7 @@ theorem run_refines {a : Args} {r : Rule} {N : Nat} {Good : Nat → State → Pr
     unfold run step
     rw [hres]
     dsimp only
-    generalize hem : emit r (Spec.RRule.sel a (k : Int)) st.count = em at pa
+    generalize hem : emit r cands st.count = em at pa
     cases hs : em.2.1 with
     | some s =>
       dsimp only
